@@ -72,6 +72,28 @@ CLAIMED = {
             "Trusted: TLC, harness encoders; the harness supplies floor(x/inc) of the INPUT as a witness which the spec "
             "verifies by multiplication.",
             "TLA+ declarative rounding spec, model-checked in small scope, plus trace validation", "DESIGN.md §5 C10"),
+    "C06": ("model_checking",
+            "Zoned.tla composes the definitional zone semantics (TzLookup.tla) with the civil arithmetic (CivilArith.tla): "
+            "calendar units on the wall clock, compatible re-resolution, then exact elapsed time; start of day as the first "
+            "instant of the civil day (the transition instant when midnight is skipped). TLC recomputes every observed "
+            "checked/saturating add and sub, duration arithmetic and day navigation from instants biased to transitions.",
+            "Trusted: independent zone readers, TLC. Civil times with >= 3 pre-images (synthetic back-to-back zones) are skipped.",
+            "TLA+ spec of zoned arithmetic; implementation traces validated by TLC", "DESIGN.md §5 C06"),
+    "C07": ("model_checking",
+            "The expected difference is computed exactly by the spec for every type: exact BigInt nanoseconds balanced from "
+            "the largest unit for time units; Temporal's surpass criterion on the unclamped year-month-day for months/years; "
+            "for zoned values Temporal's day-correction loop over compatible intermediates. TLC checks equality, a + s = b "
+            "with the spec's own addition, since = -until, duration_until = exact distance, Err exactly when the span does "
+            "not fit the unit limits, and that nothing panics.",
+            "Trusted: TLC, harness encoders, zone readers for the zoned part.",
+            "TLA+ spec of differences; implementation traces validated by TLC", "DESIGN.md §5 C07"),
+    "C13": ("model_checking",
+            "WF(zone, instant, offset, civil) is evaluated by TLC on every Zoned value the harness ever obtains: after every "
+            "step of seeded operation histories over 15 kinds of public operations and on every result of the zoned "
+            "arithmetic and rounding drivers; Eq/Ord/Hash of consecutive states are compared with their instants and zone "
+            "changes must keep the instant.",
+            "Histories are generated by the harness PRNG, not by TLC (deviation from DESIGN.md §5 C13, see §15).",
+            "TLA+ state invariant evaluated by TLC at every step of implementation histories", "DESIGN.md §5 C13"),
 }
 
 PENDING_REASON = "check not built yet in this round (planned, see DESIGN.md §5); no claim is made"
